@@ -226,14 +226,32 @@ pub fn codec_case(ctx: &Ctx, case: u64, acc: &mut Acc) -> Verdict {
     }
 }
 
+/// Through Foca: when a bundled codec runs out of space in the middle of a Feed (bincode writes partial
+/// bytes first), the datagram must stay well-formed. Re-uses the packet-size sweep restricted to the
+/// serde codecs; grammar violations are reported under this property.
+fn through_foca(ctx: &Ctx, case: u64, acc: &mut Acc) -> Verdict {
+    // sweep cases are (codec = case % 5, kind = (case / 5) % 11): pick serde codecs (2,3,4) and Feed (8) or Gossip (6)
+    let codec = 2 + case % 3;
+    let kind = if case % 2 == 0 { 8 } else { 6 };
+    let sub = case / 6;
+    let sweep_case = codec + 5 * (kind + 11 * sub);
+    match crate::work::sweep::sweep_case(ctx, sweep_case, acc, crate::mon::Arm::only("C07")) {
+        Ok(()) => Ok(()),
+        Err(v) => Err(V::new(&v.rule.replace("C07/", "C20/through-foca/"), v.msg)),
+    }
+}
+
 pub fn check() -> Check {
     Check {
         id: "C20",
         level: "exploration",
-        rule: "for BincodeCodec (standard and legacy configs, 64 KiB limit) and PostcardCodec over three identity types (variable-length Id, SocketAddr, struct with String/Vec<u8>/u64/Option): random Header and Member values over every Message variant with boundary incarnations/probe numbers; (1) encode + trailing bytes + decode: equal value, exact consumption; (2) encoding into Limit buffers of EVERY size 0..=len; (3) decoding EVERY truncation; (4) bit-flipped, prefix-poisoned and random strings; all under catch_unwind. The thorough tier repeats a subset under Miri and AddressSanitizer. Through-Foca behaviour (mid-feed encode failure) is covered by C07's size sweep. Distinct by value pair.",
+        rule: "for BincodeCodec (standard and legacy configs, 64 KiB limit) and PostcardCodec over three identity types (variable-length Id, SocketAddr, struct with String/Vec<u8>/u64/Option): random Header and Member values over every Message variant with boundary incarnations/probe numbers; (1) encode + trailing bytes + decode: equal value, exact consumption; (2) encoding into Limit buffers of EVERY size 0..=len; (3) decoding EVERY truncation; (4) bit-flipped, prefix-poisoned and random strings; all under catch_unwind. The thorough tier repeats a subset under Miri and AddressSanitizer. Through-Foca behaviour (encode failure in the middle of a Feed / a piggybacked section) is exercised by the packet-size sweep restricted to the serde codecs, with the independent grammar parser and a fresh peer as oracle. Distinct by value pair.",
         assumptions: &["bincode is given a 64 KiB byte limit (unbounded configs can request huge allocations on hostile length prefixes; allocation aborts are outside the crate's stated guarantees)"],
         required: &["roundtrips", "limit_sizes_tried", "truncations_tried", "hostile_rejected"],
-        workloads: vec![Workload { name: "codec", f: codec_case, quick: 30_000, thorough: 1_500_000, flav: Flav::Both }],
+        workloads: vec![
+            Workload { name: "codec", f: codec_case, quick: 30_000, thorough: 1_500_000, flav: Flav::Both },
+            Workload { name: "through_foca", f: through_foca, quick: 600, thorough: 30_000, flav: Flav::Checked },
+        ],
         exhaustive: false,
     }
 }
